@@ -134,3 +134,59 @@ package verifspec
 //@ property C20
 //@   panics_only_if forall(k, 0, len(keys), len(keys[k]) == 0)
 //@   ensures str(result) == joinid(pair(str(global("build/cache.cacheRoot")), pair(str(strof(sha256hex(joinid(strs(keys))))[0:2]), pair(sha256hex(joinid(strs(keys))), 0))))
+
+// ---- reading.  `verified` records that the gzip trailer (CRC-32 and length) has been compared with the data read:
+// a gzip.Reader does that only when a Read reaches the end of the stream; Close does not.
+//@ extern compress/gzip.NewReader
+//@   param r
+//@   results zr err
+//@   assigns nothing
+//@   ensures err == nil ==> zr != nil
+//@ extern compress/gzip.Reader.Close
+//@   param z
+//@   assigns nothing
+//@ extern encoding/gob.NewDecoder
+//@   param r
+//@   assigns nothing
+//@   ensures result != nil
+// A gob decoder reads what it needs for one value; whether that reaches the end of the compressed stream is unspecified.
+//@ extern encoding/gob.Decoder.Decode
+//@   param dec e
+//@   assigns deref(e), verified
+//@   ensures old(verified) ==> verified
+//@ extern build/cache.Cacheable.Read
+//@   param c decode
+//@   assigns verified
+//@   ghost readCalled = true
+//@   ghost readOK = (result == nil)
+//@   ensures old(verified) ==> verified
+// Reading a stream to its end with a nil error means the trailer was reached and matched.
+//@ extern io.Copy
+//@   param dst src
+//@   results n err
+//@   assigns verified
+//@   ensures err == nil ==> verified
+//@   ensures old(verified) ==> verified
+
+// deserialize: an entry is accepted (err == nil, !old) only if it is not older than the sources, the payload reader ran
+// and succeeded, and the integrity check of the compressed stream was actually performed; an out-of-date entry is
+// reported without running the payload reader.
+//@ func build/cache.BuildCache.deserialize
+//@ property C20
+//@   ghost verified = false
+//@   ghost readCalled = false
+//@   ghost readOK = false
+//@   ensures err == nil && !old ==> readCalled && readOK && !timeAfter(srcModTime.wall, srcModTime.ext, buildTime.wall, buildTime.ext)
+//@   ensures err == nil && !old ==> verified
+//@   ensures old ==> !readCalled && timeAfter(srcModTime.wall, srcModTime.ext, buildTime.wall, buildTime.ext)
+
+// Load: a hit only for an entry that deserialize accepted; never for the package under test or a nil cache; no error
+// value and no panic escapes.
+//@ func build/cache.BuildCache.Load
+//@ property C20
+//@   recv_may_be_nil
+//@   ghost verified = false
+//@   ghost readCalled = false
+//@   ghost readOK = false
+//@   ensures (bc == nil || (len(importPath) > 0 && (importPath == bc.TestedPackage || importPath == bc.TestedPackage + "_test"))) ==> !result && !readCalled
+//@   ensures result ==> readCalled && readOK && verified
